@@ -427,9 +427,120 @@ def run_match2ref(ctx):
         probe_match2ref(ctx, gen_match2ref(ctx.rng))
 
 
+def run_interface(ctx):
+    """the catalog interface of XYXYMatch.__call__: (a) the deprecated `tp_wcs=` form (tangent-plane
+    coordinates computed by the matcher from x,y / RA,DEC) returns exactly what the `TPx`,`TPy` form returns
+    on coordinates computed by hand, and both return the true correspondences; (b) catalogs of the wrong
+    type / without the needed columns are refused (TypeError / KeyError), never matched on other columns"""
+    import warnings
+    from astropy.table import Table
+    from .. import scenes
+    mu = _xyxy()
+    rng = ctx.rng
+    for _ in range(ctx.n(6, 80)):
+        jw = rng.random() < 0.5
+        c, info = scenes.mk_jwst(rng) if jw else scenes.mk_fits(rng, kind=rng.choice(['cd', 'pc', 'lut']))
+        ps = float(c.tanp_center_pixel_scale)
+        nx, ny = scenes.image_size(c)
+        nc, ner, nei = rng.randint(3, 25), rng.randint(0, 5), rng.randint(0, 5)
+        pts = []
+        for _k in range(4000):
+            if len(pts) == nc + ner + nei:
+                break
+            q = (rng.uniform(20, nx - 20), rng.uniform(20, ny - 20))
+            if all(math.hypot(q[0] - r[0], q[1] - r[1]) > 30 for r in pts):
+                pts.append(q)
+        if len(pts) < nc + ner + nei:
+            continue
+        pts = np.array(pts)
+        com, refonly, imonly = pts[:nc], pts[nc:nc + ner], pts[nc + ner:]
+        sh = (rng.uniform(-1.5, 1.5), rng.uniform(-1.5, 1.5))          # pixels, inside the search radius
+        im_xy = np.vstack([com, imonly]) if len(imonly) else com.copy()
+        pi = list(range(len(im_xy)))
+        rng.shuffle(pi)
+        im_xy = im_xy[pi]
+        ref_px = np.vstack([com, refonly]) if len(refonly) else com.copy()
+        pr = list(range(len(ref_px)))
+        rng.shuffle(pr)
+        ref_px = ref_px[pr] + np.array(sh)
+        ra, dec = c.det_to_world(ref_px[:, 0], ref_px[:, 1])
+        truth = sorted((pr.index(k), pi.index(k)) for k in range(nc))
+        use2d = rng.random() < 0.5
+        case = {'op': 'XYXYMatch interface', 'corrector': info, 'use2dhist': use2d, 'shift_px': list(sh),
+                'n': [nc, ner, nei]}
+        ctx.case(case, nontrivial=True, branch='interface:%s:2dhist=%s' % ('jwst' if jw else info['kind'], use2d))
+        m = mu.XYXYMatch(searchrad=4.0, separation=0.5, tolerance=2.5 if not use2d else 1.0, use2dhist=use2d)
+        refcat = Table([np.asarray(ra, dtype=float), np.asarray(dec, dtype=float)], names=('RA', 'DEC'))
+        imcat = Table([im_xy[:, 0], im_xy[:, 1]], names=('x', 'y'))
+        try:
+            with warnings.catch_warnings(record=True) as wl:
+                warnings.simplefilter('always')
+                a = m(refcat, imcat, tp_pscale=ps, tp_units='u', tp_wcs=c)
+            rt = np.array(c.world_to_tanp(refcat['RA'], refcat['DEC']), dtype=float)
+            it = np.array(c.det_to_tanp(imcat['x'], imcat['y']), dtype=float)
+            refcat2 = Table([rt[0], rt[1]], names=('TPx', 'TPy'))
+            imcat2 = Table([it[0], it[1]], names=('TPx', 'TPy'))
+            b = m(refcat2, imcat2, tp_pscale=ps, tp_units='u')
+        except Exception as e:   # noqa
+            ctx.oracle_fail(case, {'what': 'XYXYMatch raised on valid catalogs', 'error': repr(e)[:200]})
+            continue
+        if not any('tp_wcs' in str(w.message) for w in wl):
+            ctx.oracle_fail(case, {'what': "no deprecation warning for 'tp_wcs'"})
+        pa = sorted(zip([int(v) for v in a[0]], [int(v) for v in a[1]]))
+        pb = sorted(zip([int(v) for v in b[0]], [int(v) for v in b[1]]))
+        if pa != pb:
+            ctx.oracle_fail(case, {'what': "the 'tp_wcs' form and the 'TPx/TPy' form of the same catalogs match "
+                                           "different pairs", 'tp_wcs': pa[:8], 'tpxy': pb[:8]})
+        if pb != truth:
+            ctx.oracle_fail(case, {'what': 'matched pairs are not the true correspondences', 'got': pb[:8],
+                                   'truth': truth[:8]})
+    # (b) refused inputs
+    good_r = Table([[1.0, 50.0, 90.0], [2.0, 60.0, 10.0]], names=('TPx', 'TPy'))
+    good_i = Table([[1.2, 50.1, 90.3], [2.1, 60.2, 10.1]], names=('TPx', 'TPy'))
+    sky_r = Table([[10.0, 10.001, 10.002], [20.0, 20.001, 20.0005]], names=('RA', 'DEC'))
+    pix_i = Table([[100.0, 200.0, 300.0], [100.0, 250.0, 120.0]], names=('x', 'y'))
+    cfits, _ = scenes.mk_fits(rng, kind='cd', pointing=(10.0, 20.0))
+    m = mu.XYXYMatch(searchrad=3.0, separation=0.5, tolerance=1.0, use2dhist=False)
+    bad = [
+        ('refcat-not-a-table', (np.array([[1.0, 2.0]]), good_i), {}, 'TypeError'),
+        ('imcat-not-a-table', (good_r, [[1.0, 2.0]]), {}, 'TypeError'),
+        ('refcat-without-TPx', (Table([[1.0], [2.0]], names=('x', 'TPy')), good_i), {}, 'KeyError'),
+        ('imcat-without-TPy', (good_r, Table([[1.0], [2.0]], names=('TPx', 'y'))), {}, 'KeyError'),
+        ('refcat-sky-only-no-tp_wcs', (sky_r, good_i), {}, 'KeyError'),
+        ('tp_wcs-refcat-without-DEC', (Table([[10.0], [2.0]], names=('RA', 'TPy')), pix_i), {'tp_wcs': cfits}, 'KeyError'),
+        ('tp_wcs-imcat-without-x', (sky_r, good_i), {'tp_wcs': cfits}, 'KeyError'),
+    ]
+    for name, (r, i), kw, want in bad:
+        case = {'op': 'XYXYMatch interface', 'bad': name}
+        ctx.case(case, nontrivial=True, branch='interface:refused:' + name)
+        try:
+            with warnings.catch_warnings():
+                warnings.simplefilter('ignore')
+                out = m(r, i, tp_pscale=1.0, **kw)
+            ctx.oracle_fail(case, {'what': 'an unusable catalog was matched instead of being refused',
+                                   'returned': repr(out)[:120]})
+        except Exception as e:   # noqa
+            if type(e).__name__ != want:
+                ctx.oracle_fail(case, {'what': 'unusable catalog refused with another exception',
+                                       'raised': type(e).__name__, 'expected': want})
+    # catalogs whose meta name is None are matched like any other
+    r2, i2 = good_r.copy(), good_i.copy()
+    r2.meta['name'] = None
+    i2.meta['name'] = None
+    case = {'op': 'XYXYMatch interface', 'names': None}
+    ctx.case(case, nontrivial=True, branch='interface:name-none')
+    try:
+        a = m(r2, i2, tp_pscale=1.0)
+        if sorted(zip([int(v) for v in a[0]], [int(v) for v in a[1]])) != [(0, 0), (1, 1), (2, 2)]:
+            ctx.oracle_fail(case, {'what': 'catalogs with meta name None: wrong pairs'})
+    except Exception as e:   # noqa
+        ctx.oracle_fail(case, {'what': 'catalogs with meta name None are refused', 'error': repr(e)[:120]})
+
+
 def run(ctx):
     lines, pending = [], []
     run_match2ref(ctx)
+    run_interface(ctx)
     for c in CORPUS:
         run_field(ctx, dict(c), lines, pending)
     run_bad(ctx, lines, pending)
